@@ -146,9 +146,9 @@ def replay(obj):
 
 LEVEL_TEXT = ('Proof over the Gallina model of the generator: for every state, an attachment\'s component is <parent component>/<keyword>_<n> with n '
               'one more than the number of earlier attachments under the same parent with the same keyword, the stack of enclosing attachments and '
-              'all other counters untouched (C15_attachment_name_spec). URIs, title alias and eId scoping are the executable pipeline model '
+              'all other counters untouched (C15_attachment_name_spec); in every tree the eId generator returns, every id below an identified element - an attachment in particular - is that element\'s id followed by "__...", at every depth (C15_ids_live_under_their_container). URIs, title alias and eId scoping are the executable pipeline model '
               '(item_to_xml + tabulated cobalt meta + set_attachment_titles + eId rewrite), tied to the code by the e2e stage on attachment '
               'forests x 7 roots x 5 FRBR URIs, and checked on the implementation by the attachment oracle. Partial: document-wide uniqueness '
-              'and the URI/alias clauses are not separate theorems.')
+              'of components and the URI/alias clauses are not separate theorems.')
 LEVEL_NOTE = 'Trusted: Coq kernel; hand models tied by sampling; cobalt represented by tabulated templates; translators; extraction+driver. The clean-counter premise is C16\'s business.'
 TECHNIQUE = 'Rocq proof (counter specification) + differential run of the extracted pipeline model + attachment oracle'
